@@ -26,7 +26,37 @@ func absentAsEdge(b *ssa.BasicBlock, ev ssa.Value) (int, bool) {
 		return 0, false
 	}
 	c, ok := canon(ifi.Cond).(*ssa.Call)
-	if !ok || c.Call.StaticCallee() == nil || c.Call.StaticCallee().String() != "errors.As" || len(c.Call.Args) != 2 {
+	if !ok || c.Call.StaticCallee() == nil {
+		return 0, false
+	}
+	// a private predicate isAbsent(err) that is errors.As(err, &absentType) inside
+	if g := c.Call.StaticCallee(); g.String() != "errors.As" && g.Pkg != nil && g.Pkg.Pkg.Path() == rootPkgPath && len(g.Params) == 1 && len(c.Call.Args) == 1 && len(g.Blocks) > 0 && sameValue(c.Call.Args[0], ev) {
+		all := true
+		rets := returnsOf(g)
+		for _, ret := range rets {
+			if len(ret.Results) != 1 {
+				all = false
+				continue
+			}
+			ic, ok := canon(ret.Results[0]).(*ssa.Call)
+			if !ok || ic.Call.StaticCallee() == nil || ic.Call.StaticCallee().String() != "errors.As" || len(ic.Call.Args) != 2 || canon(ic.Call.Args[0]) != ssa.Value(g.Params[0]) {
+				all = false
+				continue
+			}
+			t := ic.Call.Args[1].Type()
+			if mi, ok := ic.Call.Args[1].(*ssa.MakeInterface); ok {
+				t = mi.X.Type()
+			}
+			if !strings.Contains(t.String(), "KeyNotFoundError") && !strings.Contains(t.String(), "SlabNotFoundError") {
+				all = false
+			}
+		}
+		if all && len(rets) > 0 {
+			return 0, true
+		}
+		return 0, false
+	}
+	if c.Call.StaticCallee().String() != "errors.As" || len(c.Call.Args) != 2 {
 		return 0, false
 	}
 	if !sameValue(c.Call.Args[0], ev) {
